@@ -26,7 +26,7 @@ var (
 type AssumeFailed struct{}
 
 func Register(name string, f func()) { registry[name] = f }
-func Lookup(name string) func()       { return registry[name] }
+func Lookup(name string) func()      { return registry[name] }
 
 func Reset(v []uint64, p map[string]string) {
 	replay, pos, params = v, 0, p
@@ -89,11 +89,11 @@ func Assert(c bool, msg string) {
 	}
 }
 
-func Reach(tag string)        {}
-func MapOrders(on bool)       {}
-func Symbolic() bool          { return false }
-func EpochMark()              {}
-func Monitor(on bool)         {}
+func Reach(tag string)         {}
+func MapOrders(on bool)        {}
+func Symbolic() bool           { return false }
+func EpochMark()               {}
+func Monitor(on bool)          {}
 func Param(name string) string { return params[name] }
 func ParamInt(name string) int {
 	n, _ := strconv.Atoi(params[name])
